@@ -24,7 +24,7 @@ RULE = (
     "stop step k = 0..T of every history is saved, restored into a fresh optimizer and continued. Non-trivial = a crash point 0 < k < T whose "
     "continuation contains a refresh step. Distinct = canonical JSON of (history, k); evaluations counts histories, sub_evaluations crash points."
 )
-BOUNDS = "T <= 8 steps, <= 3 groups, <= 3 parameters per group, numel <= 120; serial (non-DTensor) layout in this stream"
+BOUNDS = "T <= 8 steps, <= 3 groups, <= 3 parameters per group, numel <= 120; roundtrip stream: serial layout, every crash point; ddp_layout stream: DTensor state on simulated DDP worlds (W <= 4), one generated crash point per world"
 ASSUMPTIONS = ["torch.save/torch.load round-trips tensors bit-exactly", "bitwise comparison through integer views (NaN-safe)"]
 NONTRIVIAL_FLOOR = 20
 
@@ -206,6 +206,52 @@ def _expect_raise(out: Outcome, oracle_name: str, what: str, exc: Any, fn: Any) 
     out.fail(oracle_name, "load accepted a checkpoint it must reject", what)
 
 
+# --------------------------------------------------------------------------- DDP (DTensor) state layout on the simulator
+def strategy_ddp():
+    from hypothesis import strategies as st
+
+    from . import c06
+
+    @st.composite
+    def case(draw: Any) -> dict:
+        c = draw(c06.strategy())
+        T = len(c["steps"])
+        c["k"] = draw(st.integers(1, max(1, T - 1)))
+        return c
+
+    return case()
+
+
+def oracle_ddp(case: dict) -> Outcome:
+    from .. import dist_common as dc
+
+    out, info = dc.run_case(case, "C09.ddp.world", checkpoint_at=case["k"])
+    pb = info.get("pb")
+    if pb is None or out.failures:
+        return out
+    k = case["k"]
+    T = len(pb.steps)
+    kinds: set = set()
+    for r, res in enumerate(info["results"]):
+        ck = res.get("ckpt")
+        if ck is None:
+            continue
+        kinds |= set(res.get("ckpt_kinds", []))
+        for j, t in enumerate(range(k, T)):
+            a, b = res["snaps"][t], ck["snaps"][j]
+            if any(not rm.bitwise_equal(x, y) for x, y in zip(a, b)):
+                out.fail("C09.ddp.resume", "resumed DDP optimizer diverges from the uninterrupted run", f"rank {r} stop step {k} step {t + 1}")
+                return out
+            if not ck["state_equal"][j]:
+                out.fail("C09.ddp.resume", "resumed DDP optimizer state differs from the uninterrupted run", f"rank {r} stop step {k} step {t + 1}")
+                return out
+        out.sub_evaluations += 1
+    out.nontrivial = pb.W >= 2 and pb.group_size >= 2 and 0 < k < T
+    out.classes += [f"W{pb.W}", f"group{pb.group_size}"] + sorted(kinds)
+    return out
+
+
 STREAMS = {
     "roundtrip": Stream("roundtrip", oracle=oracle, strategy=strategy, quick=480, thorough=12000, shards_quick=16, shards_thorough=16),
+    "ddp_layout": Stream("ddp_layout", oracle=oracle_ddp, strategy=strategy_ddp, quick=160, thorough=3000, shards_quick=16, shards_thorough=16),
 }
